@@ -16,6 +16,12 @@ History ops:
   ["W", name, q, n]           park the flush worker at fw_published, STORE n events that fill the memtable,
                               REMEMBER inside the window, release
   ["H", name]                 SHOW m<name>, then QUERY <q> (the oracle's reference), back to back
+  ["HF", name, bytes]         SHOW m<name> whose response writer fails with BrokenPipe after <bytes> bytes (!failwrite): the
+                              client hung up; frames appended so far stay in the store, the catalog entry is not rewritten
+  ["HA", name, point, hit]    FLUSH, then SHOW m<name> with the process aborting at the hit-th visit of step point <point>
+                              (show_delta_appended | show_before_catalog; hooks/C14-show-steps.diff — without the hook the SHOW
+                              completes), restart on the same directories
+  ["B", n]                    n STOREs (context c00) without waiting in between, then quiescence
 q = {"ctx": int|None, "where": [op, n]|None, "since": off|None, "tf": "C"|"P", "ret": None|["k"]|["k","pt"], "limit": n|None}
 """
 import concurrent.futures, json, os, re, subprocess, time
@@ -26,14 +32,15 @@ from props import base
 PROP = "C14"
 PROPS_V = "theories/Props/C14.v"
 THEOREMS = ["C14_show_eq_query_reach", "C14_show_eq_query_core", "C14_stored_below_mark", "C14_monotone_clock_suffices",
-            "C14_refuted_EventNotAboveMark_component_max", "C14_show_idempotent", "C14_remember_dup_rejected",
+            "C14_refuted_EventNotAboveMark_component_max", "C14_show_idempotent",
+            "C14_failed_show_then_show_exact", "C14_failed_show_state", "C14_refuted_InterruptedRefresh", "C14_failed_show_example", "C14_remember_dup_rejected",
             "C14_remember_fresh_accepted", "C14_show_eq_query_refuted", "C14_refuted_MarkOfLastFrame",
             "C14_refuted_PayloadTimeField_dup", "C14_refuted_PayloadTimeField_lost", "C14_refuted_PayloadTimeField_hidden",
             "C14_refuted_EventNotAboveMark", "C14_refuted_LimitNotReapplied", "C14_refuted_RawStreamDuplicates",
             "C14_refuted_SegmentOlderThanEvent", "C14_show_eq_query_outside_known", "C14_no_class_is_good",
             "C14_outside_known_example"]
 RULE = ("engine histories over 1..3 shards (STORE with pinned second / scripted millisecond clock, FLUSH, compaction round, "
-        "restart, REMEMBER, SHOW followed by QUERY) for queries with FOR / WHERE / SINCE / USING / RETURN / LIMIT, plus "
+        "restart, REMEMBER, SHOW followed by QUERY, SHOW whose response writer fails after n bytes) for queries with FOR / WHERE / SINCE / USING / RETURN / LIMIT, plus "
         "function-level append sequences of MaterializedSink and HighWaterMark op sequences; a history is non-trivial when "
         "a SHOW of an existing materialisation returned at least one row; distinct by (configuration, op sequence)")
 ASSUMPTIONS = [
@@ -52,7 +59,7 @@ TRUSTED = [
 ]
 CLAIMED = True
 MANIFEST = {
- "level_text": "Theorems over Model/Materialize.v (all layouts: any shards/segments/zones/file times; all histories of new quiescent layouts, REMEMBERs and SHOWs; all arrival orders of the batches; queries with FOR/WHERE/SINCE on the core timestamp): inductive invariant 'stored frames = matching events at or below the mark'; every SHOW returns exactly the live selection, each event once; SHOW is idempotent without new data; REMEMBER under an existing name is rejected. The full property is refuted with machine-checked witnesses, each replayed on the real engine, and proved outside six decidable classes: the materialisation's mark is the mark of the LAST frame appended, not the maximum (MarkOfLastFrame: about one REMEMBER in four over memtable+segment stores the memtable batch first and the next SHOW returns those events twice); a payload time field (USING f) is compared against a mark taken from the core timestamp (PayloadTimeField); an event that is not above the mark when it arrives is never shown (EventNotAboveMark: frozen/backward clock, same millisecond on a lower shard); LIMIT is cut at REMEMBER and never re-applied by SHOW (LimitNotReapplied); REMEMBER inside a flush window stores the raw stream twice (RawStreamDuplicates); a segment file older than mark-1 s is skipped whole (SegmentOlderThanEvent). The round-0 hypothesis about created_at pruning after an empty REMEMBER is refuted (dead code). The model is replayed against the engine on generated histories with observed layouts/frames; the oracle compares SHOW with QUERY issued back to back.",
+ "level_text": "Theorems over Model/Materialize.v (all layouts: any shards/segments/zones/file times; all histories of new quiescent layouts, REMEMBERs and SHOWs; all arrival orders of the batches; queries with FOR/WHERE/SINCE on the core timestamp): inductive invariant 'stored frames = matching events at or below the mark'; every SHOW returns exactly the live selection, each event once; SHOW is idempotent without new data; REMEMBER under an existing name is rejected. The full property is refuted with machine-checked witnesses, each replayed on the real engine, and proved outside seven decidable classes: the materialisation's mark is the mark of the LAST frame appended, not the maximum (MarkOfLastFrame: about one REMEMBER in four over memtable+segment stores the memtable batch first and the next SHOW returns those events twice); a payload time field (USING f) is compared against a mark taken from the core timestamp (PayloadTimeField); an event that is not above the mark when it arrives is never shown (EventNotAboveMark: frozen/backward clock, same millisecond on a lower shard); LIMIT is cut at REMEMBER and never re-applied by SHOW (LimitNotReapplied); REMEMBER inside a flush window stores the raw stream twice (RawStreamDuplicates); a segment file older than mark-1 s is skipped whole (SegmentOlderThanEvent). SHOW's two-step persistence is modelled (frames appended while streaming, catalog entry rewritten after the response): a SHOW whose delivery failed, followed by any good operations and a healthy SHOW, is proved exact, except when the aborted refresh kept the newer delta batch only (InterruptedRefresh, reproduced with a response above the writer's 64 KiB buffer). The round-0 hypothesis about created_at pruning after an empty REMEMBER is refuted (dead code). The model is replayed against the engine on generated histories with observed layouts/frames; the oracle compares SHOW with QUERY issued back to back.",
  "design_ref": "DESIGN.md §6 C14",
  "level_note": "Trusted: Coq kernel; ExtrOcamlBasic extraction + ocaml/p_mat.ml; the engine harness, tools/engine.py, harness/src/probes/mat.rs (layout and frames are read with the engine's own readers); clock hooks under cfg(sneldb_verif). Arrival order of batches and (for LIMIT) the delivered rows are inputs taken from the observation. Not modelled: ORDER BY/OFFSET/aggregates in remembered queries, retention, batches > 32768 rows."
 }
@@ -117,6 +124,9 @@ def show_ops(ops):
         elif o[0] == "R": out.append(f"REMEMBER[{show_q(o[2])}] AS m{o[1]}")
         elif o[0] == "W": out.append(f"park(fw_published);S x{o[3]};REMEMBER[{show_q(o[2])}] AS m{o[1]};release")
         elif o[0] == "H": out.append(f"SHOW m{o[1]}")
+        elif o[0] == "HF": out.append(f"failwrite({o[2]});SHOW m{o[1]}")
+        elif o[0] == "HA": out.append(f"F;abort@{o[2]}#{o[3]};SHOW m{o[1]};restart")
+        elif o[0] == "B": out.append(f"S x{o[1]}")
         else: out.append(o[0])
     return " ".join(out)
 
@@ -150,6 +160,9 @@ class Hist:
         self.stores_since = {}  # name -> stores since the previous SHOW
         self.prev_show = {}
         self.last_layout = None
+        self.faulted = {}      # name -> a SHOW failed since the last healthy one
+        self.pending_fail = {}
+        self.notes_info = []
 
     # -- clocks
     def pin(self):
@@ -272,6 +285,41 @@ class Hist:
             fr.append((mark, ks))
         return fr
 
+    def catalog_mark(self, name):
+        out = fn_probe(f"mat_catalog {hx(os.path.join(self.eng.root, 'cols'))} m{name}")
+        m = re.match(r"cat=(\d+\.\d+) rows=(\d+)", out)
+        if not m:
+            self.notes.append(f"catalog probe for m{name}: {out[:100]}")
+            return "?"
+        return m.group(1)
+
+    def settled_frames(self, name):
+        """frames after a failed SHOW: the aborted delta task can still finish an append it had begun"""
+        prev, stable = self.frames(name), 0
+        for _ in range(40):
+            self.eng.cmd("!sleep 60")
+            cur = self.frames(name)
+            stable = stable + 1 if cur == prev else 0
+            if stable >= 4:
+                return cur
+            prev = cur
+        return prev
+
+    def amend_failed(self, name):
+        """an append the aborted task had begun can land after the failed SHOW was observed (fsync under load): what the
+        failed SHOW left is what the store holds when the next command on that materialisation starts"""
+        p = self.pending_fail.pop(name, None)
+        if not p:
+            return
+        ti, oi, before, shards, seen = p
+        after = self.frames(name)
+        if after != seen:
+            new = after[len(before):]
+            self.tokens[ti] = f"F:{name}:{self.choice(shards, new)}"
+            mark = after[-1][0] if after else "0.0"
+            self.obs[oi] = f"F new={self.frames_str(new)} mark={mark} cat={self.catalog_mark(name)}"
+            self.notes_info.append(f"failed SHOW m{name}: an append landed after the observation")
+
     def choice(self, shards, new_frames):
         """source index of every new frame: a source that holds all of the frame's keys (an event can sit in the
         memtable and in a segment at once), frames with the fewest candidates first"""
@@ -304,6 +352,7 @@ class Hist:
 
     def do_remember(self, name, q, shards):
         line = f"REMEMBER {q_text(q, self.base)} AS m{name}"
+        self.amend_failed(name)
         before = self.frames(name)
         r = self.eng.cmd(line)
         out = r.get("out", "")
@@ -328,9 +377,42 @@ class Hist:
             self.obs.append("R error " + out[:120])
             self.shows.append({"kind": "remember-error", "name": name, "msg": out[:200]})
 
-    def do_show(self, name, shards):
+    def do_show(self, name, shards, fail=None, abort=None):
+        self.amend_failed(name)
         before = self.frames(name)
-        r = self.eng.rows(f"SHOW m{name}")
+        if fail is not None:
+            self.eng.cmd(f"!failwrite {fail}")
+        if abort is not None:
+            self.eng.cmd(f"!arm_abort {abort[0]} {abort[1]}")
+        crashed = False
+        try:
+            raw = self.eng.cmd(f"SHOW m{name}")
+        except engine.Crashed:
+            # the process died inside SHOW (armed step point): restart on the same directories
+            crashed = True
+            raw = {"out": "", "error": "crashed"}
+            self.eng.stop()
+            self.eng.start()
+            self.pin()
+        if abort is not None and not crashed:
+            self.eng.cmd("!arm_abort none 0")
+        r = engine.parse_stream(raw)
+        failed = crashed or (fail is not None and (raw.get("error") is not None or r["status"] != 200 or r.get("count") is None))
+        if failed:
+            # the client saw an error (or nothing); what matters is what the engine kept
+            after = self.settled_frames(name)
+            new = after[len(before):]
+            self.tokens.append(f"F:{name}:{self.choice(shards, new)}")
+            if name not in self.queries:
+                self.obs.append("S unknown")
+                self.shows.append({"kind": "show-failed", "name": name, "appended": 0})
+                return
+            mark = after[-1][0] if after else "0.0"
+            self.obs.append(f"F new={self.frames_str(new)} mark={mark} cat={self.catalog_mark(name)}")
+            self.pending_fail[name] = (len(self.tokens) - 1, len(self.obs) - 1, before, shards, after)
+            self.shows.append({"kind": "show-failed", "name": name, "appended": len(new), "bytes": fail, "crashed": crashed,
+                               "delivered": len(raw.get("out", ""))})
+            return
         after = self.frames(name)
         new = after[len(before):]
         self.tokens.append(f"S:{name}:{self.choice(shards, new)}")
@@ -343,9 +425,10 @@ class Hist:
             return
         ks = sorted(int(x["k"]) for x in r["rows"])
         mark = after[-1][0] if after else "0.0"
-        self.obs.append(f"S out={'+'.join(map(str, ks)) or '-'} new={self.frames_str(new)} mark={mark}")
+        self.obs.append(f"S out={'+'.join(map(str, ks)) or '-'} new={self.frames_str(new)} mark={mark} cat={self.catalog_mark(name)}")
         q = self.queries.get(name)
-        d = {"kind": "show", "name": name, "show": ks, "q": q}
+        d = {"kind": "show", "name": name, "show": ks, "q": q, "after_fault": self.faulted.get(name, False)}
+        self.faulted[name] = False
         if q is not None:
             rq = self.eng.rows(q_text(q, self.base))
             d["query"] = sorted(int(x["k"]) for x in rq["rows"]) if rq["status"] == 200 else f"ERR {rq.get('message')}"
@@ -404,8 +487,24 @@ class Hist:
                     self.quiesce()
                     shards = self.emit_layout()
                     self.do_show(op[1], shards)
+                elif t == "HF":
+                    self.quiesce()
+                    shards = self.emit_layout()
+                    self.faulted[op[1]] = True
+                    self.do_show(op[1], shards, fail=op[2])
+                elif t == "HA":
+                    self.eng.cmd("FLUSH"); self.quiesce()     # a process crash must not be able to lose memtable events
+                    shards = self.emit_layout()
+                    self.faulted[op[1]] = True
+                    self.do_show(op[1], shards, abort=(op[2], op[3]))
+                elif t == "B":
+                    for i in range(op[1]):
+                        self.do_store(0, i % 4, 0, wait=False)
+                    self.quiesce()
+            for name in list(self.pending_fail):
+                self.amend_failed(name)
             return {"line": "mat_run " + " ".join(self.tokens), "obs": " | ".join(self.obs), "shows": self.shows,
-                    "notes": self.notes}
+                    "notes": self.notes, "info": self.notes_info}
         finally:
             self.eng.destroy()
 
@@ -541,9 +640,12 @@ def oracle(c, impl):
             if sh != qu:
                 extra = sorted(set(k for k in sh if sh.count(k) > qu.count(k)))
                 miss = sorted(set(k for k in qu if qu.count(k) > sh.count(k)))
-                return (f"op#{n}: SHOW m{d['name']} returned {sh}, QUERY issued right after returned {qu}"
+                def brief(l):
+                    return l if len(l) <= 40 else f"{len(l)} rows [{l[0]}..{l[-1]}]"
+                return (f"op#{n}: SHOW m{d['name']} returned {brief(sh)}, QUERY issued right after returned {brief(qu)}"
                         + (f"; returned more than once or not selected: {extra}" if extra else "")
-                        + (f"; missing: {miss}" if miss else ""))
+                        + (f"; missing: {miss}" if miss else "")
+                        + ("; first healthy SHOW after a SHOW whose delivery failed" if d.get("after_fault") else ""))
         else:
             alln = d.get("query_nolimit", [])
             if len(sh) != len(qu) or len(set(sh)) != len(sh) or not set(sh) <= set(alln):
@@ -662,6 +764,52 @@ def gen_history(rng, cfg, n_ops, tf="C", limit=False, p_back=0):
     return ops
 
 
+def gen_fault_history(rng, cfg, tf="C"):
+    """SHOW -> failed SHOW (non-empty snapshot, non-empty delta) -> STOREs -> SHOW, with FLUSH / compaction / restart
+    around the failure and several failures in a row"""
+    ops, now = [], 0
+
+    def stores(n):
+        nonlocal now
+        for _ in range(n):
+            if rng.chance(1, 3):
+                now += rng.range(1, 2)
+                ops.append(("N", now))
+            ops.append(("S", rng.below(3), rng.below(4), rng.range(-3, 3) if tf == "P" else 0))
+
+    def fail():
+        return ("HF", 1, rng.choice([0, 0, 1, 50, 200, 1000]))
+    q = gen_query(rng, tf)
+    if rng.chance(2, 3):
+        q["since"] = None
+    stores(rng.range(1, 4))
+    if rng.chance(1, 3):
+        ops.append(("F",))
+    ops.append(("R", 1, q))
+    if rng.chance(1, 2):
+        ops.append(("H", 1))
+    for _ in range(rng.range(1, 3)):
+        stores(rng.range(1, 3))
+        if rng.chance(1, 2):
+            ops.append(("F",))
+            stores(rng.range(0, 2))
+        if rng.chance(1, 5):
+            ops.append(("C",))
+        ops.append(fail())
+        r = rng.below(6)
+        if r == 0:
+            ops.append(("X",))
+        elif r == 1:
+            ops.append(fail())
+        elif r == 2:
+            ops += [("F",), ("C",)]
+        stores(rng.range(0, 3))
+        ops.append(("H", 1))
+        if rng.chance(1, 3):
+            ops.append(("H", 1))
+    return ops
+
+
 def cases(rng, tier):
     out = []
     quick = tier == "quick"
@@ -729,6 +877,35 @@ def cases(rng, tier):
                 ops.append(("F",))
             ops.append(("H", 1))
         out.append(mk_case("frozen_clock", cfg, ops))
+    for i in range(14 if quick else 400):
+        cfg = rng.choice(CFGS)
+        out.append(mk_case("show_fault", cfg, gen_fault_history(rng, cfg)))
+    for i in range(2 if quick else 40):
+        cfg = rng.choice(CFGS)
+        out.append(mk_case("show_fault_payload", cfg, gen_fault_history(rng, cfg, tf="P")))
+    for i in range(6 if quick else 150):
+        # the process dies between SHOW's persistence steps (effective once hooks/C14-show-steps.diff is applied)
+        cfg = rng.choice(CFGS)
+        q = gen_query(rng)
+        q["since"] = None
+        ops = [("S", rng.below(6), rng.below(4), 0) for _ in range(rng.range(1, 4))] + [("R", 1, q)]
+        if rng.chance(1, 2):
+            ops.append(("H", 1))
+        for _ in range(rng.range(1, 2)):
+            ops.append(("N", len(ops)))
+            ops += [("S", rng.below(6), rng.below(4), 0) for _ in range(rng.range(2, 5))]
+            ops.append(("HA", 1, rng.choice(["show_delta_appended", "show_delta_appended", "show_before_catalog"]), rng.range(1, 2)))
+            ops += [("S", rng.below(6), rng.below(4), 0) for _ in range(rng.range(0, 2))]
+            ops += [("H", 1), ("H", 1)]
+        out.append(mk_case("show_crash", cfg, ops))
+    for i in range(1 if quick else 25):
+        # a response above the writer's 64 KiB buffer: the failure comes mid-stream and aborts the delta task
+        cfg = {"shards": 1, "fill_factor": 50, "event_per_zone": 50}
+        qall = {"ctx": None, "where": None, "since": None, "tf": "C", "ret": None, "limit": None}
+        ops = [("B", 1400 + 50 * rng.below(4)), ("R", 1, qall), ("R", 2, qall), ("N", 2), ("F",), ("S", 0, 1, 0), ("S", 0, 1, 0), ("S", 0, 1, 0),
+               ("F",), ("N", 4), ("S", 0, 1, 0), ("S", 0, 1, 0), ("HF", 1, rng.choice([0, 70000])), ("HF", 2, 0), ("H", 1), ("H", 2),
+               ("S", 0, 1, 0), ("H", 1), ("H", 2)]
+        out.append(mk_case("show_fault_big", cfg, ops))
     for i in range(4 if quick else 60):
         # wall clock stepping backwards between STOREs
         cfg = rng.choice(CFGS)
